@@ -436,3 +436,101 @@ func historyPairs(c *ShardCtx, b *core.Built, text string, gen core.Gen, calls [
 		}
 	}
 }
+
+// historyFamily: what an ABORTED call leaves behind. One action block `("a" {..})` is placed inside
+// every kind of enclosing construct (the operand of ! and &, a repetition, a choice alternative that
+// fails afterwards, a label, the guarded side and the recovery side of a recovery operator, a
+// called rule, behind a state block, inside a left-recursive rule when the flag set has
+// -support-left-recursion); calls = inputs x {no fault, the block returns an error, panics with an
+// error, panics with a string} x {Recover on, off}; EVERY ordered pair of calls runs in one
+// process and the second call must return exactly what it returns as the first call of a process
+// (value, complete error list incl. the expected set, escaped panic).
+func historyFamily(c *ShardCtx, idx *int, gens []core.Gen) {
+	lit := peg.Lit
+	inner := func() *peg.Expr { return peg.Action(0, lit("a")) }
+	type hctx struct {
+		name  string
+		body  func() *peg.Expr
+		rules func() []*peg.Rule
+		lr    bool
+	}
+	ctxs := []hctx{
+		{"!", func() *peg.Expr { return peg.Not(peg.Seq(inner(), lit("b"))) }, nil, false},
+		{"&", func() *peg.Expr { return peg.And(inner()) }, nil, false},
+		{"*", func() *peg.Expr { return peg.Star(inner()) }, nil, false},
+		{"alt", func() *peg.Expr { return peg.Choice(peg.Seq(inner(), lit("b")), lit("a")) }, nil, false},
+		{"label", func() *peg.Expr { return peg.Label("x", inner()) }, nil, false},
+		{"guarded", func() *peg.Expr { return peg.Recover(peg.Seq(inner(), peg.Throw("l")), lit("b"), "l") }, nil, false},
+		{"recovery", func() *peg.Expr { return peg.Recover(peg.Seq(peg.Opt(lit("b")), peg.Throw("l")), inner(), "l") }, nil, false},
+		{"rule", func() *peg.Expr { return peg.Not(peg.Not(peg.Ref("A"))) }, func() []*peg.Rule { return []*peg.Rule{{Name: "A", Display: "the A", Expr: inner()}} }, false},
+		{"state", func() *peg.Expr { return peg.Opt(peg.Seq(peg.StateCode(0), inner(), lit("b"))) }, nil, false},
+		{"leftrec", func() *peg.Expr { return peg.Not(peg.Seq(peg.Ref("E"), lit("b"))) }, func() []*peg.Rule {
+			return []*peg.Rule{{Name: "E", Expr: peg.Choice(peg.Seq(peg.Ref("E"), inner()), lit("b"), inner())}}
+		}, true},
+	}
+	inputs := []string{"", "a", "ab", "b", "ba", "aab", "c"}
+	for _, cx := range ctxs {
+		for _, gen := range gens {
+			if cx.lr != gen.LeftRec {
+				continue
+			}
+			*idx++
+			if !c.Mine(*idx) {
+				continue
+			}
+			if c.Expired("history family") {
+				return
+			}
+			g := &peg.Grammar{Rules: []*peg.Rule{{Name: "S", Display: "start", Expr: peg.Action(0, peg.Seq(peg.Label("v", peg.Seq(cx.body(), peg.Star(peg.Choice(lit("a"), lit("b"))))), peg.Not(peg.Any())))}}}
+			if cx.rules != nil {
+				g.Rules = append(g.Rules, cx.rules()...)
+			}
+			peg.Renumber(g, 1)
+			peg.AssignArgs(g)
+			text := peg.Print(g, nil)
+			b := buildOrCount(c, text, gen)
+			if b == nil {
+				continue
+			}
+			c.Res.Grammars++
+			// the inner block is the action over the literal "a" (not the top action)
+			innerID := 0
+			for _, blk := range g.Blocks() {
+				if blk.K == peg.KAction && blk.ID != g.Rules[0].Expr.ID {
+					innerID = blk.ID
+				}
+			}
+			mk := func(f func(*rtapi.Block)) map[int]*rtapi.Block {
+				s := map[int]*rtapi.Block{}
+				for _, blk := range g.Blocks() {
+					s[blk.ID] = &rtapi.Block{Pred: rtapi.PredTrue}
+					if blk.K == peg.KState {
+						s[blk.ID].Ops = rtapi.OpShallow
+					}
+				}
+				if f != nil {
+					f(s[innerID])
+				}
+				return s
+			}
+			scripts := []struct {
+				s    map[int]*rtapi.Block
+				note string
+			}{
+				{mk(nil), ""},
+				{mk(func(b *rtapi.Block) { b.Err = "e1" }), ", the block returns an error"},
+				{mk(func(b *rtapi.Block) { b.Err, b.Panic = "boom", 1 }), ", the block panics with an error"},
+				{mk(func(b *rtapi.Block) { b.Err, b.Panic = "boom", 2 }), ", the block panics with a string"},
+			}
+			var calls []hcall
+			for _, in := range inputs {
+				for _, o := range []rtapi.RunOpts{{MaxExpr: 600}, {MaxExpr: 600, NoRecover: true}} {
+					for _, sc := range scripts {
+						calls = append(calls, hcall{in, o, sc.s, sc.note})
+					}
+				}
+			}
+			historyPairs(c, b, text+" (block inside: "+cx.name+")", gen, calls)
+		}
+	}
+}
